@@ -84,6 +84,26 @@ def referee_apply(tmp, n, seed, stats, problems):
                 problems.append(('apply', mk, 'collateral', path))
 
 
+def referee_corpus(tmp, stats, problems):
+    """vendored compiler-produced objects (as compiled and with pre-filled RELA fields): mini reader + oracle vs readelf -R"""
+    for k, case in enumerate(c08.corpus_cases()):
+        path = os.path.join(tmp, 'c%d.o' % k)
+        open(path, 'wb').write(case['file'])
+        elf, mk, plan = c08.corpus_plan(case['file'])
+        for name, content, rela, relocs, symvals in plan:
+            if rela is None:
+                continue
+            exp, facts = REF.apply_expected(mk, elf['em'], elf['le'], rela, content, relocs, symvals)
+            out, err = run(['readelf', '-R', name, path])
+            got = parse_hexdump(out)
+            key = (case['name'], 'pre-filled' if case['poison'] else 'as compiled')
+            if got == exp and 'Warning' not in err:
+                stats['corpus agree', key] += len(facts)
+            else:
+                stats['corpus DISAGREE', key] += 1
+                problems.append(('corpus', case['name'], name, err[:200]))
+
+
 def referee_tables(tmp, n, seed, stats, problems):
     ch = RndChooser(seed + 1)
     for k in range(n):
@@ -170,6 +190,7 @@ def main():
     problems = []
     try:
         referee_apply(tmp, n, seed, stats, problems)
+        referee_corpus(tmp, stats, problems)
         referee_tables(tmp, n, seed, stats, problems)
         for k, v in sorted(stats.items(), key=str):
             print('%-70s %-28s %d' % (k[0], k[1], v))
